@@ -18,8 +18,8 @@ def run(idx, rep, tier):
     eager.r_eager(idx, rep, it, floor=150, unknown_ceiling=30)
     buffers.r_frozen(idx, rep)
     buffers.r_guardstore(idx, rep, floor=3)
-    buffers.r_boundedstore(idx, rep, floor=3)
-    buffers.r_compact(idx, rep, floor=8)
+    buffers.r_boundedstore(idx, rep, floor=2)
+    buffers.r_compact(idx, rep, floor=6)
     buffers.r_emptyfill(idx, rep, floor=6)
     aabbtree.r_sentinel(idx, rep)
     safediv.r_sqrtdomain(idx, rep, floor=10, unknown_ceiling=10)      # math.sqrt: ValueError interpreted, NaN compiled
